@@ -66,7 +66,12 @@ def run(ctx):
                         want = ("struct", e.value[1], tuple((n, (status("Open") if n == "status" else v)) for n, v in e.value[2]))
                         # a stored status other than Open is final for current_status (only open proposals move), so it must be the
                         # outcome computed for the proposal as created; storing Open is always truthful (it is recomputed on every read)
-                        ctx.ob("R03.2", key + "/create", (x is not None and x == want) or st == status("Open"), sites=[e.site],
+                        same = x is not None and x == want
+                        if x is not None and not same:
+                            # the proposal handed to current_status and the one written may be spelled differently (a literal here, the
+                            # source entry with fields replaced there): equal when every field is
+                            same = all((field_of(x, n) == (status("Open") if n == "status" else v)) for n, v in e.value[2])
+                        ctx.ob("R03.2", key + "/create", same or st == status("Open"), sites=[e.site],
                                detail="created proposal stores status %s, neither Open nor current_status(<the proposal as created, Open>, env.block)" % show(st)[:200],
                                sample={"status": show(st)[:120]})
                         # R03.1 creation
